@@ -243,7 +243,51 @@ def sp_psum(eng, node, st):
     return vint(models.psum(eng, st, a, eng.list_len(st, xs))(a, n))
 
 
-SPEC_BUILTINS = dict(psum=sp_psum, forall=sp_forall, exists=sp_exists, implies=sp_implies, ite=sp_ite, old=sp_old,
+def sp_rsum(eng, node, st):
+    """rsum(lambda j: expr, n)  or  rsum(array_or_list, n): real sum of the first n terms"""
+    from . import models
+    n = to_int(eng.ev(node.args[1], st))
+    a0 = node.args[0]
+    if isinstance(a0, ast.Lambda):
+        names, consts, saved = _bind_lambda(eng, a0, st)
+        try:
+            body = eng.ev(a0.body, st)
+        finally:
+            _unbind(st, saved)
+        models._CUR[0] = st
+        arr = models.lam(consts, to_real(body))
+    else:
+        v = eng.ev(a0, st)
+        if isinstance(v.k, tuple) and v.k[0] == 'arr' and v.k[1] == 1:
+            arr = eng.arr_data(st, v)
+        elif isinstance(v.k, tuple) and v.k[0] == 'list':
+            arr = eng.list_arr(st, v)
+        else:
+            raise ContractError("rsum() of %r" % (v.k,))
+    return vreal(models.rsum(eng, st, arr, n)(arr, n))
+
+
+def sp_norm(eng, node, st):
+    """norm(lambda i: expr, n): the 2-norm of the 1-D array defined pointwise (same UF as np.linalg.norm)"""
+    from . import models
+    n = to_int(eng.ev(node.args[1], st))
+    a0 = node.args[0]
+    names, consts, saved = _bind_lambda(eng, a0, st)
+    try:
+        body = eng.ev(a0.body, st)
+    finally:
+        _unbind(st, saved)
+    models._CUR[0] = st
+    arr = models.lam(consts, to_real(body))
+    return vreal(models._norm_uf(eng, 1)(arr, n))
+
+
+def sp_sqrt(eng, node, st):
+    from . import models
+    return models.np_sqrt(eng, st, [eng.ev(node.args[0], st)], {}, node)
+
+
+SPEC_BUILTINS = dict(psum=sp_psum, rsum=sp_rsum, norm=sp_norm, sqrt=sp_sqrt, forall=sp_forall, exists=sp_exists, implies=sp_implies, ite=sp_ite, old=sp_old,
                      fresh=sp_fresh, same=sp_same, unchanged=sp_unchanged, isnone=sp_isnone, real=sp_real,
                      eqcontent=sp_eqcontent, let=sp_let, alloc_now=sp_alloc)
 
@@ -293,6 +337,8 @@ def ev_call(eng, node, st):
         if st.spec and f.id in S.SPECFNS:
             return call_specfn(eng, S.SPECFNS[f.id], [eng.ev(a, st) for a in node.args], st)
     args = []
+    if isinstance(f, ast.Name) and f.id == 'isinstance' and 'isinstance' not in st.env:
+        return eng.models['builtins.isinstance'](eng, st, [eng.ev(node.args[0], st)], {}, node)
     for a in node.args:
         if isinstance(a, ast.Starred):
             v = eng.ev(a.value, st)
